@@ -75,6 +75,9 @@ pub struct Handle {
     pub announced: BTreeSet<u64>,
     pub became: BTreeSet<u64>,
     pub sub_since_start: bool,
+    /// log entries written since the last flush (derived from the journals), and the oracle at that flush
+    pub unflushed_entries: u64,
+    pub flushed_oracle: Oracle,
 }
 
 #[derive(Clone, Debug)]
@@ -185,6 +188,18 @@ impl Sim {
 
     fn take_journal(h: &mut Handle) -> Vec<Op> { std::mem::take(&mut h.world.lock().unwrap().journal) }
 
+    /// bookkeeping after a mutating call: entries written since the last flush
+    fn note_journal(h: &mut Handle, j: &[Op]) {
+        for op in j {
+            match op {
+                Op::Write(s, off, _) if *s == backend::OPLOG && *off >= 8192 => h.unflushed_entries += 1,
+                Op::Trunc(s, _) if *s == backend::OPLOG => { h.unflushed_entries = 0; }
+                _ => {}
+            }
+        }
+        if j.iter().any(|op| matches!(op, Op::Trunc(s, _) if *s == backend::OPLOG)) { h.flushed_oracle = h.oracle.clone(); }
+    }
+
     fn snapshot(h: &mut Handle) {
         h.prev_files = h.world.lock().unwrap().files.clone();
         h.prev_oracle = h.oracle.clone();
@@ -229,22 +244,29 @@ impl Sim {
                 let r = Self::open_core(&world, Some(kp));
                 let (core, out) = match r { Ok(c) => (Some(c), "ok".to_string()), Err(e) => (None, e.chars().take(3).collect()) };
                 if core.is_none() { self.fail("new-failed", format!("creating a core failed: {out}")); }
-                let mut h = Handle { world, core, seed: Some(seed), writer: name.to_string(), oracle: Oracle { writable: true, exists: true, ..Default::default() }, prev_files: Default::default(), prev_oracle: Default::default(), last_journal: vec![], subs: vec![], announced: BTreeSet::new(), became: BTreeSet::new(), sub_since_start: false };
+                let mut h = Handle { world, core, seed: Some(seed), writer: name.to_string(), oracle: Oracle { writable: true, exists: true, ..Default::default() }, prev_files: Default::default(), prev_oracle: Default::default(), last_journal: vec![], subs: vec![], announced: BTreeSet::new(), became: BTreeSet::new(), sub_since_start: false, unflushed_entries: 0, flushed_oracle: Default::default() };
                 let j = Self::take_journal(&mut h);
                 let s = format!("{out} j={}", jfmt(&j));
+                h.flushed_oracle = h.oracle.clone();
                 h.last_journal = j;
                 self.h.insert(name.to_string(), h);
                 s
             }
-            ["newr", name, writer] => {
+            ["newr", name, writer, ..] => {
                 let pk = self.h[*writer].core.as_ref().map(|c| c.key_pair().public);
                 let Some(pk) = pk else { return "nocore".into() };
                 let world = new_world(Default::default());
+                for opt in ws.iter().skip(3) {
+                    if let Some(c) = opt.strip_prefix("cache=") { world.lock().unwrap().cache = c.parse().ok(); }
+                    if *opt == "backend=mem" { world.lock().unwrap().kind = backend::Kind::Mem(std::sync::Arc::new(std::array::from_fn(|_| std::sync::Arc::new(futures::lock::Mutex::new(random_access_memory::RandomAccessMemory::default()))))); }
+                    if *opt == "backend=disk" { world.lock().unwrap().kind = backend::Kind::Disk(std::sync::Arc::new(tempfile::Builder::new().prefix("hcverif").tempdir_in("/verif/work").or_else(|_| tempfile::tempdir()).unwrap())); }
+                }
                 let r = Self::open_core(&world, Some(PartialKeypair { public: pk, secret: None }));
                 let (core, out) = match r { Ok(c) => (Some(c), "ok".to_string()), Err(e) => (None, e.chars().take(3).collect()) };
-                let mut h = Handle { world, core, seed: None, writer: writer.to_string(), oracle: Oracle { writable: false, exists: true, ..Default::default() }, prev_files: Default::default(), prev_oracle: Default::default(), last_journal: vec![], subs: vec![], announced: BTreeSet::new(), became: BTreeSet::new(), sub_since_start: false };
+                let mut h = Handle { world, core, seed: None, writer: writer.to_string(), oracle: Oracle { writable: false, exists: true, ..Default::default() }, prev_files: Default::default(), prev_oracle: Default::default(), last_journal: vec![], subs: vec![], announced: BTreeSet::new(), became: BTreeSet::new(), sub_since_start: false, unflushed_entries: 0, flushed_oracle: Default::default() };
                 let j = Self::take_journal(&mut h);
                 let s = format!("{out} j={}", jfmt(&j));
+                h.flushed_oracle = h.oracle.clone();
                 h.last_journal = j;
                 self.h.insert(name.to_string(), h);
                 s
@@ -274,6 +296,7 @@ impl Sim {
                     for i in s..e.min(h.oracle.len) { h.oracle.held[i as usize] = false; }
                 }
                 h.last_journal = j.clone();
+                Self::note_journal(h, &j);
                 let valid = s < e && s < h.oracle.len;
                 if valid && out != "ok" { self.fail("clear-failed", format!("clear({s},{e}) on a core of length {} returned {out}", self.h[*name].oracle.len)); }
                 self.bump("op_clear");
@@ -377,6 +400,7 @@ impl Sim {
                 let expect = format!("ok {}", h.oracle.writable);
                 if matches!(r, Ok(Ok(_))) { h.oracle.writable = false; }
                 h.last_journal = j.clone();
+                Self::note_journal(h, &j);
                 if out != expect { self.fail("ro-wrong", format!("make_read_only = {out}, expected {expect}")); }
                 self.bump("op_ro");
                 format!("{out} j={}{ev}", jfmt(&j))
@@ -420,6 +444,18 @@ impl Sim {
                 if ro && out != "clean" { self.fail("secret-on-disk", format!("after make_read_only the storage still contains secret key material: {out}")); }
                 self.bump("op_secretscan");
                 out
+            }
+            ["rebuild", name, seed] => {
+                // build (not open) on EXISTING storage with a caller-supplied key pair: the stored key pair wins
+                let Some(h) = self.h.get_mut(*name) else { return "nocore".into() };
+                h.core = None; h.subs.clear();
+                let seed: [u8; 32] = unhex(seed).try_into().unwrap();
+                let sk = SigningKey::from_bytes(&seed);
+                let r = Self::open_core(&h.world, Some(PartialKeypair { public: sk.verifying_key(), secret: Some(sk) }));
+                let j = Self::take_journal(h);
+                let out = match r { Ok(c) => { h.core = Some(c); "ok".to_string() } Err(e) => { let d = format!("building on existing storage with a key pair failed: {}", e.chars().take(160).collect::<String>()); self.fail("rebuild-failed", d); if e.starts_with("err") { "err".to_string() } else { "panic".to_string() } } };
+                self.bump("op_rebuild");
+                format!("{out} j={}", jfmt(&j))
             }
             ["openkp", name] => {
                 // supplying a key pair together with open mode must be rejected
@@ -529,7 +565,7 @@ impl Sim {
                 let world = new_world(files);
                 let r = Self::open_core(&world, None);
                 let (core, out) = match r { Ok(c) => (Some(c), "ok".to_string()), Err(e) => (None, if e.starts_with("err") { "err".to_string() } else { "panic".to_string() }) };
-                let mut h = Handle { world, core, seed: None, writer: name.to_string(), oracle: Oracle { exists: true, ..Default::default() }, prev_files: Default::default(), prev_oracle: Default::default(), last_journal: vec![], subs: vec![], announced: BTreeSet::new(), became: BTreeSet::new(), sub_since_start: false };
+                let mut h = Handle { world, core, seed: None, writer: name.to_string(), oracle: Oracle { exists: true, ..Default::default() }, prev_files: Default::default(), prev_oracle: Default::default(), last_journal: vec![], subs: vec![], announced: BTreeSet::new(), became: BTreeSet::new(), sub_since_start: false, unflushed_entries: 0, flushed_oracle: Default::default() };
                 let j = Self::take_journal(&mut h);
                 self.h.insert(name.to_string(), h);
                 format!("{out} j={}", jfmt(&j))
@@ -542,6 +578,19 @@ impl Sim {
                 let idx = probe_indices(core.info().length);
                 let s = Self::probe_core(core, &idx);
                 Self::drain(h);
+                // independent reader of the JavaScript oplog layout: the entries that carry the current header
+                // bit must be exactly the ones written since the last flush
+                let f = backend::dump_files(&h.world);
+                let o = crate::jslayout::parse(&f[3]);
+                let mut lfail = None;
+                match crate::jslayout::newest(&o) {
+                    None => lfail = Some("no valid header slot".to_string()),
+                    Some((_, bit)) => {
+                        let current = o.entries.iter().take_while(|e| e.bit == bit).count() as u64;
+                        if current != h.unflushed_entries { lfail = Some(format!("a reader of the JavaScript layout finds {current} entries carrying the current header bit, but {} entries were written since the last flush (slot bits {:?}/{:?}, entry bits {:?})", h.unflushed_entries, o.slot0.as_ref().map(|s| s.bit), o.slot1.as_ref().map(|s| s.bit), o.entries.iter().map(|e| e.bit).collect::<Vec<_>>())); }
+                    }
+                }
+                if let Some(d) = lfail { self.fail("js-layout-reader-disagrees", d); }
                 self.bump("op_readfiles");
                 if s.len() > 600 { format!("{} ## {:016x}", s.split(" ::").next().unwrap(), fnv(&s)) } else { s }
             }
@@ -657,6 +706,7 @@ impl Sim {
                 if after_probe != before_probe { fails.push(("refused-proof-changed-state", format!("a proof answered with '{out}' changed the replica: before [{}] after [{}]", trunc(&before_probe), trunc(&after_probe)))); }
             }
         }
+        Self::note_journal(h, &j);
         for (k, d) in fails { self.fail(k, d); }
         self.bump(if accepted { "apply_accepted" } else if out == "ok false" { "apply_refused" } else if out == "err" { "apply_error" } else { "apply_panic" });
         format!("{out} j={}{ev}", jfmt(&j))
@@ -678,6 +728,7 @@ impl Sim {
         } else { ("notwritable".to_string(), String::new()) };
         let expect_ev = if h.subs.is_empty() { String::new() } else { format!(" ev={}", vec![expect_ev; h.subs.len()].join(";")) };
         h.last_journal = j.clone();
+        Self::note_journal(h, &j);
         let nonw = !h.oracle.writable;
         if self.check_oracle && out != expect { self.fail("append-wrong", format!("append of {} block(s) returned {out}, list model says {expect}", bs.len())); }
         if self.check_oracle && ev != expect_ev { self.fail("append-events", format!("append of {} block(s) emitted '{ev}', expected '{expect_ev}'", bs.len())); }
